@@ -172,10 +172,32 @@ def phasesOf (cmd : String) : Option (List (List Char)) :=
   | "forget" => some [['s']]
   | "prune" => some [['P', 'I'], ['i'], ['p']]
   | "prune-instant" => some [['p'], ['P', 'I'], ['i'], ['p']]
+  -- `early_delete_index` without `instant_delete` is inert: the order of plain prune
+  | "prune-early" => some [['P', 'I'], ['i'], ['p']]
   | "repairidx" => some [['I'], ['i']]
   | "repairidx-readall" => some [['I'], ['i']]
   | "config" => some [['O']]
   | "key" => some [['O']]
   | _ => none
+
+/-! ### the storage operations of `prune_repository` (`commands/prune.rs`) as a function of the two options that move the
+removal of the rebuilt index files -/
+
+/-- `PruneOptions::{instant_delete, early_delete_index}` -/
+structure PruneFlags where
+  instantDelete : Bool
+  earlyDeleteIndex : Bool
+deriving DecidableEq, Repr
+
+/-- `let early_delete_index = opts.early_delete_index && opts.instant_delete;` — the option is honoured only together
+with `instant_delete` ("Delete index files early if instant-delete is chosen") -/
+def PruneFlags.early (f : PruneFlags) : Bool := f.earlyDeleteIndex && f.instantDelete
+
+/-- the tail of `prune_repository`: `if !indexes_remove.is_empty() && early_delete_index { delete index files }`, then the
+repack (new packs, `indexer.finalize` = the new index file), then `if … && !early_delete_index { delete index files }`, then
+the pack removals.  `ps` / `idx` = what the repack writes, `rmIdx` = `indexes_remove`, `rmPacks` = the packs to delete. -/
+def pruneOpsOpt (f : PruneFlags) (ps : List Pack) (idx : IndexFile) (rmIdx rmPacks : List Nat) : List Op :=
+  (if f.early then rmIdx.map Op.removeIndex else []) ++ ps.map Op.writePack ++ [Op.writeIndex idx] ++
+  (if f.early then [] else rmIdx.map Op.removeIndex) ++ rmPacks.map Op.removePack
 
 end Rustic.Repo
